@@ -3,23 +3,28 @@
 #include <set>
 #include <cwctype>
 #include <algorithm>
+#include <array>
 #include <unordered_set>
 
 namespace ccl::rslang {
 
 namespace {
 
-//! Words that ASCII lexer reads as operators and not as identifiers: card, bool, debool, red, pr{number}
+//! Words that ASCII lexer reads as operators and not as identifiers:
+//! card, bool, debool, red, pr{number}, Pr{number}, Fi{number}
 [[nodiscard]] bool IsAsciiKeyword(const std::string& word) {
   static const std::unordered_set<std::string_view> keywords{ "card", "bool", "debool", "red" };
-  static constexpr std::string_view projection = "pr";
+  static constexpr std::array<std::string_view, 3> indexed{ "pr", "Pr", "Fi" };
   if (keywords.contains(word)) {
     return true;
   }
-  return size(word) > size(projection) &&
-    word.compare(0, size(projection), projection) == 0 &&
-    std::all_of(begin(word) + static_cast<ptrdiff_t>(size(projection)), end(word),
-                [](const unsigned char symbol) noexcept { return std::isdigit(symbol) != 0; });
+  return std::any_of(begin(indexed), end(indexed),
+    [&word](const std::string_view prefix) {
+      return size(word) > size(prefix) &&
+        word.compare(0, size(prefix), prefix) == 0 &&
+        std::all_of(begin(word) + static_cast<ptrdiff_t>(size(prefix)), end(word),
+                    [](const unsigned char symbol) noexcept { return std::isdigit(symbol) != 0; });
+    });
 }
 
 // NOLINTBEGIN: ignore magic numbers
